@@ -348,7 +348,7 @@ class Server(object):
             self.authed = True
 
     def _command_MAIL(self, arg):
-        match = from_pattern.match(arg)
+        match = arg and from_pattern.match(arg)
         if not match:
             bad_arguments.send(self.io)
             return
@@ -394,7 +394,7 @@ class Server(object):
         self.have_mailfrom = self.have_mailfrom or (reply.code == '250')
 
     def _command_RCPT(self, arg):
-        match = to_pattern.match(arg)
+        match = arg and to_pattern.match(arg)
         if not match:
             bad_arguments.send(self.io)
             return
